@@ -616,6 +616,22 @@ def search_independence(ctx):
                 ok &= check_state(ctx, f"independence:{name}", f"{name}: the circuit built first changes when a second one of the same size is built (data {a.tolist()} then {b.tolist()})",
                                   "sa", tgt, setup, "C20_search_independence")
                 ok &= check_state(ctx, f"independence:{name}", f"{name}: second circuit / repeated execution", "sb2", "sb", setup, "C20_search_independence")
+                # the user retunes the first circuit (its parameters are public and settable):
+                # a later construction from the same data must still prepare the target
+                setup3 = (f"a = {arr_repr(a)}\nca = {c_.format(x='a')}\nsa0 = run(ca)\n"
+                          "k = len(ca.get_parameters('flatlist'))\nca.set_parameters([0.37 * (i + 1) for i in range(k)])\n"
+                          f"run(ca)\nca2 = {c_.format(x='a')}\n")
+                ok &= check_state(ctx, f"independence:{name}", f"{name}: a circuit built after the parameters of an earlier one of the same size were changed",
+                                  "run(ca2)", tgt, setup3, "C20_search_independence")
+    setup_dft = ("def dft(n):\n    N = 2**n\n    j = np.arange(N)\n    return np.exp(2j*np.pi*np.outer(j, j)/N)/np.sqrt(N)\n"
+                 "def rev(n):\n    return [int(format(i, f'0{n}b')[::-1], 2) for i in range(2**n)]\n")
+    for n in (2, 3, 5):
+        setup3 = setup_dft + (f"q = QFT({n})\nk = len(q.get_parameters('flatlist'))\nq.set_parameters([0.37 * (i + 1) for i in range(k)])\n"
+                              f"q.unitary(nb)\nq1 = QFT({n}, with_swaps=False)\nq1.set_parameters([0.11 * (i + 1) for i in range(k)])\n")
+        ok &= check_state(ctx, "independence:QFT", f"QFT({n}) built after the parameters of an earlier QFT({n}) were changed is not the DFT",
+                          f"QFT({n}).unitary(nb)", f"dft({n})", setup3, "C20_search_independence")
+        ok &= check_state(ctx, "independence:QFT", f"QFT({n}, with_swaps=False) built after the parameters of an earlier one were changed",
+                          f"QFT({n}, with_swaps=False).unitary(nb)", f"dft({n})[rev({n}), :]", setup3, "C20_search_independence")
     # QFT circuits of different sizes / options built interleaved
     setup = "q3 = QFT(3)\nq4 = QFT(4, with_swaps=False)\nq3b = QFT(3)\nu = np.asarray(q3.unitary(nb))\nq4.unitary(nb)\n"
     ok &= check_state(ctx, "independence:QFT", "QFT circuits of different sizes/options built interleaved", "np.asarray(q3b.unitary(nb))", "u", setup, "C20_search_independence")
